@@ -1,8 +1,9 @@
 """C11 -- the collection tree stays a consistent forest under any history (incl. calls that raise).
 
-stage 2  Props/C11.v : forest invariant proved for the repaired semantics (all histories, failing
-         calls included) and for every non-partial step of the 5.1.1 semantics; `_refuted` for
-         the 5.1.1 semantics with vm_compute witnesses.
+stage 2  Props/C11.v : C11_forest_invariant - the invariant holds after every prefix of every history
+         (rejected calls included) for the semantics the code has now (`repaired` variant of the
+         model), by induction; *_all views; `_refuted` theorems with vm_compute witnesses for the
+         three older variants (record of the repaired defects).
 stage 3  correspondence: random histories through the public API; after every operation the
          outcome and the full observable state (parent, children, sources, sensors, collections,
          *_all by creation index) are compared with the Coq model (vm_compute).  Which model
@@ -555,8 +556,9 @@ def run(ctx):
         "hand model coq/Model/ForestModel.v of BaseCollection.add/remove/setters/_update_src_and_sens, "
         "BaseGeo.parent/__add__/copy, check_format_input_obj, format_obj_input, rec_obj_remover; tied by the "
         "history correspondence (outcome + full observable state after every operation)",
-        "the model variant (5.1.1 add vs atomic add; stale vs refreshed setters) is chosen by two probes on the "
-        "implementation; theorems exist for both and the evidence names the one in force",
+        "three probes on the implementation (the witnesses of the _refuted theorems) decide which model variant "
+        "(atomic add / refreshed setters / per-child remove lookup) the code follows; the positive theorem "
+        "C11_forest_invariant is about (True, True, True) and any other answer counts as a broken proof",
         "multi-object arguments are flat lists; foreign values are non-iterable (int/None/float); attribute "
         "assignment on non-collections is not issued; copy is tied only in states where the invariant holds "
         "(deepcopy of a damaged graph is not modelled); deepcopy itself is modelled as a subtree clone",
@@ -581,6 +583,13 @@ def run(ctx):
                     "; remove: " + ("membership looked up per child (repaired)" if variant[2] else
                                     "magpylib 5.1.1 (self_objects computed once; remove_refuted applies)"))}
     ctx.log(f"model variant: atomic_add={variant[0]} refreshed_setters={variant[1]} fresh_remove={variant[2]}")
+    if tuple(variant) != (True, True, True):
+        # the positive theorem is about the `repaired` variant only; for the variant the code follows
+        # now the model REFUTES the invariant (C11_add_refuted / C11_views_refuted / C11_remove_refuted)
+        ctx.add_broken("broken-proof", "C11_forest_invariant",
+                       f"the implementation follows model variant atomic_add={variant[0]} refreshed_setters="
+                       f"{variant[1]} fresh_remove={variant[2]}; C11_forest_invariant is proved for "
+                       "(True, True, True) only and the model refutes the invariant for this variant")
 
     viols = []
 
